@@ -3,8 +3,11 @@ import GqlProofs.Lemmas.VarsLemmas
 namespace Gql
 open Gql.Strconv
 
-/-- conformance with every legacy leniency -/
+/-- conformance with every legacy leniency (what a SUPPLIED value has to satisfy) -/
 abbrev CL (s : Schema) (t : GType) (v : GoVal) : Prop := conformsWith .legacy s t v = true
+/-- conformance with the five leniencies other than `flatNested` (what a RESULT satisfies since
+    the repair of R14d) -/
+abbrev CR (s : Schema) (t : GType) (v : GoVal) : Prop := conformsWith .afterR14d s t v = true
 
 theorem leafName_legacy (t : GType) : leafName .legacy t = some t.name := by
   cases t <;> simp [leafName, Leniency.legacy, GType.name]
@@ -200,19 +203,34 @@ theorem suppliedValue_wf {vars : VarMap} {v : VarDef} {x : GoVal}
       | err e => simp [hvv] at h
       | diverge => simp [hvv] at h
 
+/- ---------- on a scalar / enum NAMED type `flatNested` is irrelevant ---------- -/
+
+theorem leafOK_afterR14d (s : Schema) (n : Name) (v : GoVal) : leafOK .afterR14d s n v = leafOK .legacy s n v := by
+  cases v <;> rfl
+
+theorem conformsWith_named_afterR14d (s : Schema) (n : Name) (nn : Bool) (p : Pos) (d : Definition)
+    (hd : s.type? n = some d) (hk : d.kind = .scalar ∨ d.kind = .enum) (v : GoVal) :
+    conformsWith .afterR14d s (.named n nn p) v = conformsWith .legacy s (.named n nn p) v := by
+  have hno : ¬ d.kind = .inputObject := by rcases hk with h | h <;> simp [h]
+  cases v <;> simp [conformsWith, leafName, leafOK_afterR14d, hd, hno]
+
+theorem storeElem_eq_ret (ret upd : GoVal) : storeElem ret upd = ret := rfl
+
 /-- the type's named type is a scalar or an enum (any list depth around it) -/
 def LeafTyped (s : Schema) (t : GType) : Prop :=
   ∃ d, s.type? t.name = some d ∧ (d.kind = .scalar ∨ d.kind = .enum)
 
-/-- what a successful `validateVarType` call guarantees on scalar-based and enum-based types -/
+/-- what a successful `validateVarType` call guarantees on scalar-based and enum-based types: the
+    RETURNED value conforms with list nesting exact (`CR`), the ARGUMENT conformed up to
+    single-value-to-list coercion (`CL`) -/
 def ConfTriple (s : Schema) (t : GType) (val : GoVal) : Res (GoVal × GoVal) → Prop
-  | .ok (ret, upd) => CL s t ret ∧ CL s t upd ∧ CL s t val ∧ ((∀ e xs, val ≠ .slice e xs) → upd = val)
+  | .ok (ret, _) => CR s t ret ∧ CL s t val
   | _ => True
 
 theorem listLoop_conforms (s : Schema) (e : GType) (f : Path → GoVal → Res (GoVal × GoVal)) (path : Path) (b1 b2 : Bool)
     (hf : ∀ p x, wfB x = true → (x = .nil → b2 = false) → ConfTriple s e x (f p x)) :
     ∀ (xs xs' : GoVals) (i : Nat), wfItemsB b1 xs = true → listLoop f path b1 b2 i xs = .ok xs' →
-      allConform .legacy s e xs' = true ∧ allConform .legacy s e xs = true
+      allConform .afterR14d s e xs' = true ∧ allConform .legacy s e xs = true
   | .nil, xs', i, _, h => by simp only [listLoop] at h; cases h; simp [allConform]
   | .cons x rest, xs', i, hw, h => by
     simp only [wfItemsB, Bool.and_eq_true] at hw
@@ -230,11 +248,7 @@ theorem listLoop_conforms (s : Schema) (e : GType) (f : Path → GoVal → Res (
         | ok rest' =>
           simp only [hl] at h; cases h
           obtain ⟨a, b⟩ := listLoop_conforms s e f path b1 b2 hf rest rest' (i + 1) hw.2 hl
-          have hst : conformsWith .legacy s e (storeElem ret upd) = true := by
-            unfold storeElem; split
-            · exact hx.2.1
-            · exact hx.1
-          simp [allConform, hst, a, b, hx.2.2.1]
+          simp [allConform, storeElem_eq_ret, hx.1, a, b, hx.2]
         | err m p a => simp [hl] at h
         | panic m => simp [hl] at h
         | outOfFuel => simp [hl] at h
@@ -278,7 +292,7 @@ theorem validateVarType_conforms (s : Schema) (hplain : EnumNamesPlain s) :
         simp only [GType.nonNull] at this
         subst this
         rw [vvt_list_nil]
-        simp [ConfTriple, CL, conformsWith, GType.nonNull]
+        simp [ConfTriple, CL, CR, conformsWith, GType.nonNull]
       by_cases hsl : ∃ t xs, val = GoVal.slice t xs
       · obtain ⟨t, xs, rfl⟩ := hsl
         simp only [validateVarType, GoVal.isNil, Bool.and_false, Bool.false_eq_true, if_false]
@@ -286,8 +300,7 @@ theorem validateVarType_conforms (s : Schema) (hplain : EnumNamesPlain s) :
         cases hr : listLoop (fun p x => validateVarType s fuel p e x) path (decide (t = .iface)) e.nonNull 0 xs with
         | ok xs' =>
           obtain ⟨a, b⟩ := listLoop_conforms s e _ path _ _ (fun p x h1 h2 => ih p e x hte h1 h2) xs xs' 0 hxs hr
-          simp only [ConfTriple, CL, conformsWith, a, b, true_and]
-          intro h; exact absurd rfl (h t xs)
+          simp [ConfTriple, CL, CR, conformsWith, a, b]
         | err m p a => simp [ConfTriple]
         | panic m => simp [ConfTriple]
         | outOfFuel => simp [ConfTriple]
@@ -304,18 +317,11 @@ theorem validateVarType_conforms (s : Schema) (hplain : EnumNamesPlain s) :
             obtain ⟨ret, upd⟩ := pr
             intro hg
             simp only [ConfTriple] at hg
-            obtain ⟨h1, h2, h3, h4⟩ := hg
-            have hu := h4 hns
-            subst hu
-            have hst : conformsWith .legacy s e (storeElem ret upd) = true := by
-              unfold storeElem; split
-              · exact h2
-              · exact h1
-            have hflat : conformsWith .legacy s (.list e nn p) upd = conformsWith .legacy s e upd :=
-              conformsWith_flat s (.list e nn p) e upd (by simp [GType.name]) hvn hns
-            refine ⟨?_, ?_, ?_, fun _ => rfl⟩
-            · simp [CL, conformsWith, allConform, hst]
-            · simp only [CL, hflat]; exact h3
+            obtain ⟨h1, h3⟩ := hg
+            have hflat : conformsWith .legacy s (.list e nn p) val = conformsWith .legacy s e val :=
+              conformsWith_flat s (.list e nn p) e val (by simp [GType.name]) hvn hns
+            refine ⟨?_, ?_⟩
+            · simp [CR, conformsWith, allConform, storeElem_eq_ret, h1]
             · simp only [CL, hflat]; exact h3
           | err m p a => simp [ConfTriple]
           | panic m => simp [ConfTriple]
@@ -325,12 +331,14 @@ theorem validateVarType_conforms (s : Schema) (hplain : EnumNamesPlain s) :
       simp only [GType.name] at hd
       simp only [validateVarType, hd]
       by_cases hnil : (!nn && val.isNil) = true
-      · simp only [hnil, if_true, ConfTriple, CL]
+      · simp only [hnil, if_true, ConfTriple, CL, CR]
         simp only [Bool.and_eq_true, Bool.not_eq_true'] at hnil
         have : val = .nil := (GoVal.isNil_iff val).mp hnil.2
         subst this
         simp [conformsWith, GType.nonNull, hnil.1]
       · simp only [hnil]
+        have hcr : CL s (.named n nn p) val → CR s (.named n nn p) val := by
+          intro h; simp only [CR, conformsWith_named_afterR14d s n nn p d hd hk val]; exact h
         cases hty : val.type? with
         | none =>
           rcases hk with hk | hk <;> simp [hk, ConfTriple]
@@ -340,19 +348,19 @@ theorem validateVarType_conforms (s : Schema) (hplain : EnumNamesPlain s) :
             cases hacc : builtinScalarAccepts n val t.kind with
             | none =>
               have := scalar_accept_conforms s n nn p d hd hk val t hty (by simp [hacc])
-              exact ⟨this, this, this, fun _ => rfl⟩
+              exact ⟨hcr this, this⟩
             | some b =>
               cases b
               · simp [ConfTriple]
               · have := scalar_accept_conforms s n nn p d hd hk val t hty (by simp [hacc])
-                exact ⟨this, this, this, fun _ => rfl⟩
+                exact ⟨hcr this, this⟩
           · simp only [hk]
             by_cases hkind : (isIntLikeKind t.kind || decide (t.kind = Kind.string)) = true
             · simp only [hkind, Bool.not_true, Bool.false_eq_true, if_false]
               by_cases hany : (d.enumValues.any fun ev => equalFoldAscii val.reflectString ev.name) = true
               · simp only [hany, if_true]
                 have := enum_accept_conforms s hplain n nn p d hd hk val t hty hkind hany
-                exact ⟨this, this, this, fun _ => rfl⟩
+                exact ⟨hcr this, this⟩
               · simp [hany, ConfTriple]
             · simp [hkind, ConfTriple]
 
@@ -429,7 +437,7 @@ theorem jsonNumberPre_conforms_back (s : Schema) (typ : GType) (x rv : GoVal)
 theorem coerceSupplied_conforms (s : Schema) (hplain : EnumNamesPlain s) (op : OperationDef) (v : VarDef)
     (acc c : GoFields) (x : GoVal) (ht : LeafTyped s v.type) (hwf : wfB x = true)
     (h : coerceSupplied s op v acc x = .ok c) :
-    (∃ y, c = acc.set v.var y ∧ CL s v.type y) ∧ CL s v.type x := by
+    (∃ y, c = acc.set v.var y ∧ CR s v.type y) ∧ CL s v.type x := by
   unfold coerceSupplied at h
   by_cases hn : x.isNil = true
   · have hx : x = .nil := (GoVal.isNil_iff x).mp hn
@@ -441,7 +449,9 @@ theorem coerceSupplied_conforms (s : Schema) (hplain : EnumNamesPlain s) (op : O
       cases h
       have : conformsWith .legacy s v.type .nil = true := by
         cases hv : v.type <;> simp_all [conformsWith, GType.nonNull]
-      exact ⟨⟨.nil, rfl, this⟩, this⟩
+      have this' : conformsWith .afterR14d s v.type .nil = true := by
+        cases hv : v.type <;> simp_all [conformsWith, GType.nonNull]
+      exact ⟨⟨.nil, rfl, this'⟩, this⟩
   · simp only [hn] at h
     cases hj : jsonNumberPre v.type x with
     | error m => simp [hj] at h
@@ -460,7 +470,7 @@ theorem coerceSupplied_conforms (s : Schema) (hplain : EnumNamesPlain s) (op : O
         · simp [hr] at h
         · simp [hr] at h
           subst h
-          exact ⟨⟨rval, rfl, hg.1⟩, jsonNumberPre_conforms_back s v.type x rv hj hg.2.2.1⟩
+          exact ⟨⟨rval, rfl, hg.1⟩, jsonNumberPre_conforms_back s v.type x rv hj hg.2⟩
       | err m p a => intro h _; simp at h
       | panic m => intro h _; simp at h
       | outOfFuel => intro h _; simp at h
